@@ -327,6 +327,9 @@ private:
     bool isEmpty() const;
     int getNodeType() const;
     void read();
+    void enter();
+    /** The whole text of the element entered last: a comment or a processing instruction splits it into several text nodes. */
+    std::string elementText;
     bool begin(tag_t, bool skipEmpty = true);
     bool end(tag_t);
     /** skips the content until tag is closed and then looks ahead */
@@ -538,14 +541,28 @@ void XMLReader::read()
             throw XMLDocError("Invalid nesting");
         }
     }
-    if (xmlTextReaderRead(reader.get()) != 1) {
-        /* Premature end of document. */
-        throw XMLReaderError(errno, std::system_category(), "$unexpected $end");
-    }
+    do {
+        if (xmlTextReaderRead(reader.get()) != 1) {
+            /* Premature end of document. */
+            throw XMLReaderError(errno, std::system_category(), "$unexpected $end");
+        }
+        // comments and processing instructions are not part of the model, wherever they stand
+    } while (getNodeType() == XML_READER_TYPE_COMMENT || getNodeType() == XML_READER_TYPE_PROCESSING_INSTRUCTION);
 
     if (getNodeType() == XML_READER_TYPE_ELEMENT) {
         path.push(getElement());
     }
+}
+
+/**
+ * Enters the current element: remembers its text and advances to its first child.
+ */
+void XMLReader::enter()
+{
+    xmlChar* text = xmlTextReaderReadString(reader.get());
+    elementText = (text != nullptr) ? (const char*)text : "";
+    xmlFree(text);
+    read();
 }
 
 const std::string& XMLReader::get_name(const char* id) const
@@ -588,9 +605,9 @@ int XMLReader::parse(const char* text, xta_part_t syntax, const std::string& xpa
 bool XMLReader::declaration()
 {
     if (begin(tag_t::DECLARATION)) {
-        read();
+        enter();
         if (getNodeType() == XML_READER_TYPE_TEXT) {
-            parse(xmlTextReaderConstValue(reader.get()), S_DECLARATION);
+            parse((const xmlChar*)elementText.c_str(), S_DECLARATION);
         }
         return true;
     }
@@ -604,10 +621,10 @@ bool XMLReader::label(bool required, const std::string& s_kind)
         char* kind = getAttribute("kind");
         if (kind == nullptr)
             throw TypeException("A label must have a \"kind\" attribute");
-        read();
+        enter();
         /* Read the text and push it to the parser. */
         if (getNodeType() == XML_READER_TYPE_TEXT) {
-            const xmlChar* text = xmlTextReaderConstValue(reader.get());
+            const xmlChar* text = (const xmlChar*)elementText.c_str();
             static const auto map = std::map<std::string_view, xta_part_t>{
                 {"invariant", S_INVARIANT},  {"select", S_SELECT},     {"guard", S_GUARD},
                 {"synchronisation", S_SYNC}, {"assignment", S_ASSIGN}, {"probability", S_PROBABILITY},
@@ -640,7 +657,7 @@ int XMLReader::invariant(std::string& text, std::string& xpath)
         char* kind = getAttribute("kind");
         if (kind == nullptr)
             throw TypeException{"A label must have a \"kind\" attribute"};
-        read();
+        enter();
         /* Read the text. */
         if (getNodeType() == XML_READER_TYPE_TEXT) {
             auto kind_sv = std::string_view{kind};
@@ -649,7 +666,7 @@ int XMLReader::invariant(std::string& text, std::string& xpath)
             else if (kind_sv == "exponentialrate")
                 result = 1;
             if (result != -1) {
-                text = (const char*)xmlTextReaderConstValue(reader.get());
+                text = elementText;
                 xpath = path.str();
             }
         }
@@ -669,46 +686,37 @@ std::string XMLReader::name(bool instanceLine)
 std::string XMLReader::readText(bool instanceLine)
 {
     if (getNodeType() == XML_READER_TYPE_TEXT) {  // text content of a node
-        xmlChar* text = xmlTextReaderValue(reader.get());
-        auto len = text ? std::strlen((const char*)text) : 0;
-        auto text_sv = std::string_view{(const char*)text, len};
+        auto text_sv = std::string_view{elementText};
         tracker.setPath(parser, path.str());
         tracker.increment(parser, text_sv.size());
         try {
             std::string_view id = (instanceLine) ? text_sv : symbol(text_sv);
-            if (!is_keyword(id, syntax_t::OLD_PROPERTY)) {
-                auto res = std::string{id};
-                xmlFree(text);
-                return res;
-            }
+            if (!is_keyword(id, syntax_t::OLD_PROPERTY))
+                return std::string{id};
             parser->handle_error(TypeException{"$Keywords_are_not_allowed_here"});
         } catch (std::logic_error& str) {
             parser->handle_error(TypeException{str.what()});
         }
-        xmlFree(text);
     }
     return "";
 }
 
 int XMLReader::readNumber()
 {
-    read();
+    enter();
     if (getNodeType() == XML_READER_TYPE_TEXT) {  // text content of a node
         tracker.setPath(parser, path.str());
-        xmlChar* text = xmlTextReaderValue(reader.get());
-        const char* pc = (const char*)text;
-        auto len = std::strlen(pc);
+        const char* pc = elementText.c_str();
+        auto len = elementText.size();
         tracker.increment(parser, len);
         try {
             int value;
             if (auto [p, ec] = std::from_chars(pc, pc + len, value); ec != std::errc{})
                 throw std::logic_error{std::make_error_code(ec).category().name()};
-            xmlFree(text);
             return value;
         } catch (const char* str) {
             parser->handle_error(TypeException{str});
         }
-        xmlFree(text);
     }
     return -1;
 }
@@ -716,7 +724,7 @@ int XMLReader::readNumber()
 std::string XMLReader::readString(tag_t tag, bool instanceLine)
 {
     if (begin(tag)) {
-        read();
+        enter();
         return readText(instanceLine);
     }
     return "";
@@ -880,7 +888,7 @@ bool XMLReader::yloccoord()
 std::string XMLReader::temperature()
 {
     if (begin(tag_t::TEMPERATURE, false)) {
-        read();
+        enter();
         /* Get the temperature of the condition */
         return readText();
     }
@@ -1121,9 +1129,9 @@ int XMLReader::parameter()
 {
     int count = 0;
     if (begin(tag_t::PARAMETER)) {
-        read();
+        enter();
         if (getNodeType() == XML_READER_TYPE_TEXT) {
-            count = parse(xmlTextReaderConstValue(reader.get()), S_PARAMETERS);
+            count = parse((const xmlChar*)elementText.c_str(), S_PARAMETERS);
         }
     }
     return count;
@@ -1220,9 +1228,9 @@ bool XMLReader::instantiation()
 {
     if (begin(tag_t::INSTANTIATION, false)) {
         const auto* text = (const xmlChar*)"";
-        read();
+        enter();
         if (getNodeType() == XML_READER_TYPE_TEXT)
-            text = xmlTextReaderConstValue(reader.get());
+            text = (const xmlChar*)elementText.c_str();
         parse(text, S_INST);
         return true;
     }
@@ -1233,10 +1241,10 @@ void XMLReader::system()
 {
     if (begin(tag_t::SYSTEM, false)) {
         const auto* text = (const xmlChar*)"";
-        read();
+        enter();
         auto nodeType = getNodeType();
         if (nodeType == XML_READER_TYPE_TEXT)
-            text = xmlTextReaderConstValue(reader.get());
+            text = (const xmlChar*)elementText.c_str();
         // if there are no non-space characters in the text (or the text is empty),
         // bison doesn't manage to properly set the position of errors,
         // leading to nonsense error placements.
